@@ -22,6 +22,8 @@ RULE = (
     "distinct hand-over sequences (digest of (from,to,file:line) lists) with at least one hand-over."
 )
 REACH = ['handover_in_window:flatten', 'handover_in_window:leaf', 'handover_in_window:snapshot', 'handover_in_window:pushed', 'strategy:random', 'strategy:pct', 'strategy:rendezvous', 'strategy:window:flatten', 'rendezvous_on_shared_state_line', 'threads:3']  # counters (prefixes) that a healthy batch makes non-zero; gaps are reported in the evidence
+CHUNK = 1  # every scenario in its own forked child: with opcode-level tracing a scenario's yield sequence was seen to depend on
+# what ran before it in the same process (weak-reference caches inside the traced vendored typeguard); one scenario = one process state
 BUDGET = {"quick": 40, "thorough": 600}
 
 
